@@ -18,7 +18,7 @@ META = dict(
     level="exploration",
     technique="Hypothesis-generated hostile log events (tagged plain data -> objects) against the totality oracle 'returns str (or documented None), raises nothing'",
     level_text="Random events: format strings from a PEP 3101 grammar with attribute/index lookups, call syntax, conversions, (nested) format specs, and malformed/unbalanced variants; str/bytes(valid+invalid UTF-8)/non-string log_format; values whose str/repr/format/call/getattr/getitem raise or return non-text; real Failures around hostile exceptions and fake failure objects; NaN/inf/huge/non-numeric log_time; odd log_system/log_namespace/log_level; events flattened first or carrying a damaged log_flattened. Every event is passed to formatEvent, _formatEvent, eventAsText (all 8 flag combinations), formatEventAsClassicLogText and formatUnformattableEvent; about half of the cases also build a legacy twisted.python.log event dict from the same values (%-format strings valid and malformed, message tuples, isError+failure+why, hostile system) and pass it to textFromEventDict, _safeFormat and FileLogObserver.emit. Hostile methods raise ordinary exceptions, exceptions whose own __str__ raises, and (field values, formats, legacy values) non-Exception BaseExceptions: a custom one, SystemExit, GeneratorExit. A deterministic grid crosses every error kind of str/format with every error kind of repr on both paths. Sampled, not exhaustive.",
-    level_note="Scope decisions: the legacy path of twisted.python.log (an anchored file; _safeFormat promises 'swallowing all errors to always return a string') is inside the statement; so are non-Exception BaseExceptions raised by field values, because _formatEvent / formatUnformattableEvent / _safeFormat catch BaseException on purpose - KeyboardInterrupt is never raised (the legacy code re-raises it deliberately). The objects in log_time/log_system/log_namespace/log_level/log_failure raise Exception subclasses only: their guards are written and documented at Exception level and whether a SystemExit from a log_system's __str__ should be swallowed is debatable. Events are real dicts with str keys; a custom formatTime is not passed; bytes legacy format strings are not generated (_safeFormat would return bytes). Hypothesis, the tag interpreter in this file and the built-in str/format machinery are trusted.",
+    level_note="Scope decisions: the legacy path of twisted.python.log (an anchored file; _safeFormat promises 'swallowing all errors to always return a string') is inside the statement; so are non-Exception BaseExceptions raised by field values, because _formatEvent / formatUnformattableEvent / _safeFormat catch BaseException on purpose - KeyboardInterrupt is never raised (the legacy code re-raises it deliberately). The objects in log_time/log_system/log_namespace/log_level/log_failure raise Exception subclasses only: their guards are written and documented at Exception level and whether a SystemExit from a log_system's __str__ should be swallowed is debatable. Events are real dicts with str keys; caller-supplied formatTime callables are in scope as far as they are total and text-returning for ordinary timestamps (wrapping the default formatTime, time.strftime, '%.3f' %, datetime.isoformat): the odd log_time is the event's fault, not theirs - formatters that raise or return non-text for ordinary times are the caller's problem and are not generated; bytes legacy format strings are not generated (_safeFormat would return bytes). Hypothesis, the tag interpreter in this file and the built-in str/format machinery are trusted.",
     design_ref="§5 C55",
     rule="case = {fmt, fields, meta, flat, error}; non-trivial = the event has a log_format and at least one of: a hostile method actually ran, the generic 'Unable to format' / 'MESSAGE LOST' fallback was produced, a log_failure was rendered, or an odd time/system/namespace/level field was consulted; or a legacy event in which a hostile method raised an unprintable or non-Exception error; distinct by the whole case.",
 )
@@ -269,6 +269,24 @@ def _logger_frame(exc):
 
 FLAGS = [(a, b, c) for a in (False, True) for b in (False, True) for c in (False, True)]
 
+FTIMES = ("wrap", "strftime", "percent", "iso")
+
+
+def _time_formatter(kind, F):
+    """Time formatters as callers write them (textFileLogObserver style): total
+    and text-returning for ordinary timestamps, not written for odd ones."""
+    import time
+    from datetime import datetime, timezone
+    if kind == "wrap":
+        return lambda when: F.formatTime(when, "%H:%M:%S")
+    if kind == "strftime":
+        return lambda when: time.strftime("%Y-%m-%d %H:%M:%S", time.gmtime(when))
+    if kind == "percent":
+        return lambda when: "%.3f" % when
+    if kind == "iso":
+        return lambda when: datetime.fromtimestamp(when, timezone.utc).isoformat()
+    raise AssertionError(kind)
+
 
 def _make_event(case, log):
     from twisted.logger._flatten import flattenEvent
@@ -354,6 +372,21 @@ def run_case(ctx, case):
     want_str("formatEventAsClassicLogText",
              call("formatEventAsClassicLogText", F.formatEventAsClassicLogText, event), none_ok=True)
     want_str("formatUnformattableEvent", call("formatUnformattableEvent", F.formatUnformattableEvent, event, error))
+
+    # ---- a caller-supplied time formatter that is fine for ordinary timestamps
+    ftime = case.get("ftime")
+    if ftime:
+        fmtr = _time_formatter(ftime, F)
+        want_str("eventAsText(custom formatTime)",
+                 call("eventAsText(custom formatTime)", F.eventAsText, event, includeTraceback=False,
+                      includeTimestamp=True, includeSystem=False, formatTime=fmtr))
+        want_str("formatEventAsClassicLogText(custom formatTime)",
+                 call("formatEventAsClassicLogText(custom formatTime)", F.formatEventAsClassicLogText, event, fmtr),
+                 none_ok=True)
+        ctx.count("custom formatTime: " + ftime)
+        if results["eventAsText(custom formatTime)"] and _time_class(case["meta"].get("log_time")) not in ("none", "normal"):
+            ctx.count("custom formatTime consulted with an odd log_time")
+            ctx.nontrivial(("ftime", case))
 
     # ---- the legacy text path of twisted.python.log (same values, %-format)
     legacy = case.get("legacy")
@@ -600,11 +633,12 @@ CASE = st.builds(
     lambda fmt, fields, t, sy, ns, lv, fa, misc, legacy: dict(
         fmt=fmt, fields=[[k, v] for k, v in fields.items()],
         meta=dict(log_time=t, log_system=sy, log_namespace=ns, log_level=lv, log_failure=fa),
-        flat=misc[0], error=["exc", misc[1]], legacy=legacy),
+        flat=misc[0], error=["exc", misc[1]], legacy=legacy, ftime=misc[2]),
     FMT, st.one_of(st.fixed_dictionaries(dict(a=VALUE, b=VALUE), optional=dict(c=VALUE)),
                    st.dictionaries(st.sampled_from(NAMES + ["log_x"]), VALUE, max_size=2)),
     TIME, SYSTEM, NAMESPACE, LEVEL, FAILURE,
-    _radix([None, "real", None, "empty", "garbage", "partial", None, "real"], ["plain", "badstr", "badrepr", "key"]),
+    _radix([None, "real", None, "empty", "garbage", "partial", None, "real"], ["plain", "badstr", "badrepr", "key"],
+           [None, "wrap", "strftime", None, "percent", "iso", None]),
     LEGACY,
 )
 
@@ -628,6 +662,9 @@ def _grid_cases():
         for v in values:
             for fmt in (["s", "hello {a}"], ["s", "{a!r:>{a}} {missing}"], ["b", b"\xff"], None):
                 yield dict(base, fmt=fmt, meta=dict(empty, **{field: v}))
+    for v in odd["log_time"] + [["f", 1e13], ["b", b"1"], ["l", []]]:
+        for ft in FTIMES:
+            yield dict(base, meta=dict(empty, log_time=v), ftime=ft)
     for val in (bad, nontext, ["fn", "raise"], ["fn", bad]):
         for fmt in ("{a}", "{a!r}", "{a!s:>4}", "{a()}", "{a.x}", "{a[k]}", "{a:{a}}", "{a", "a}", "{}", "{a!z}"):
             for flat in (None, "real", "partial"):
